@@ -32,11 +32,18 @@ def main():
     proof_ok = True
     broken = []
     # 1. translator (tables -> Generated.v)
-    rc, msg = run_translator()
+    tstatus, msg = run_translator()
     cov["translator"] = msg
-    if rc != 0:
+    # only the translators this property's theorems depend on (through Generated*.v) are its obligations
+    mine = translators_for(mod.PROPERTIES_FILE)
+    if mine is None:
+        mine = list(tstatus)
+    mine = sorted(set(mine) | set(getattr(mod, "TRANSLATORS", [])))
+    cov["translators_of_this_property"] = mine
+    failed = [t for t in mine if tstatus.get(t, 0) != 0]
+    if failed:
         proof_ok = False
-        broken.append("translator: " + msg)
+        broken.append("translator failed closed: " + ", ".join(failed) + " :: " + msg)
     # 2. proof obligations
     ok, log = coq_build([mod.PROPERTIES_FILE] + list(getattr(mod, "EXTRA_COQ_TARGETS", [])))
     if not ok:
